@@ -68,6 +68,24 @@ def run_mc(tier, invariants, extra_consts=None, workers=8, prop=None):
         tot["transitions"] = tot.get("transitions", 0) + r["states"]
         tot["violated"] += r["violated"]
         tot["configs"].append({k: (v[1] if isinstance(v, tuple) else v) for k, v in c.items()} | {"distinct": r["distinct"], "depth": r["depth"]})
+    if prop in ("C03", "C14"):
+        # liveness of recovery: under weak fairness of the code's own steps every operation and every open returns, however the
+        # (at most two, nested) kills are placed; a recovery step that loops, or an open that a crash state blocks, shows here
+        lcfgs = [dict(MC_BASE, MaxOps=2, WalN=1, MaxCrashes=2)] if tier == "quick" else \
+                [dict(MC_BASE, MaxOps=3, WalN=n, MaxCrashes=2) for n in (1, 2)]
+        if prop == "C14" and tier == "quick":
+            lcfgs = []
+        for c in lcfgs:
+            out = tlc("MCSteps", cfg_text(c, spec="FairSpec", extra=["PROPERTIES Live_Returns Live_Reopens"]), workers=workers, timeout=2400,
+                      heap="12g", name="mclive")
+            r = parse_mc(out)
+            if r["error"] or not r["finished"]:
+                raise ToolError("MCSteps liveness failed: " + str(r["error"]) + out[-2000:])
+            tot["states"] += r["distinct"]
+            tot["transitions"] += r["states"]
+            tot["violated"] += r["violated"]
+            tot["configs"].append({k: (v[1] if isinstance(v, tuple) else v) for k, v in c.items()} |
+                                  {"module": "MCSteps", "spec": "FairSpec", "properties": "Live_Returns Live_Reopens", "distinct": r["distinct"]})
     if prop == "C12":
         # unbounded history length: the bookkeeping invariant is inductive (every state satisfying it x every operation)
         c = {"NK": 2 if tier == "quick" else 3}
